@@ -211,7 +211,7 @@ automata *init_automata_session(void) {
     t[9].from = 2; t[9].to = 3; t[9].with = sess_discover_acking;
     t[10].from = 2; t[10].to = 3; t[10].with = sess_discover_acking_chgd_xid;
     t[11].from = 1; t[11].to = 3; t[11].with = sess_discover_acking;
-    t[12].from = 3; t[12].to = 1; t[12].with = opcode_reset;
+    t[12].from = 3; t[12].to = 1; t[12].with = sess_reset;
     t[13].from = 3; t[13].to = 1; t[13].with = -1;
     t[14].from = 3; t[14].to = 3; t[14].with = sess_discover_acking_chgd_xid;
     t[15].from = 3; t[15].to = 2; t[15].with = sess_discover_noack_chgd_xid;
